@@ -1443,11 +1443,15 @@ impl CanonicalizeContext {
 			let mut mathml = mathml;
 			let children = mathml.children();
 			let n = children.len();
+			if n == 0 {
+				// every child was removed (e.g. only an <mphantom>): nothing left to script
+				return Some( CanonicalizeContext::create_empty_element(&mathml.document()) );
+			}
 			let i_mprescripts =
 				if let Some((i,_)) = children.iter().enumerate()
 					.find(|(_,&el)| name(&as_element(el)) == "mprescripts") { i } else { n };
 			let has_misplaced_mprescripts = i_mprescripts & 1 == 0;  // should be first, third, ... child
-			let has_proper_number_of_children = if i_mprescripts == n { n & 1 == 0} else { n & 1 != 0 }; // should be odd else even #
+			let has_proper_number_of_children = if i_mprescripts == n { n & 1 != 0} else { n & 1 == 0 }; // base + pairs is odd; with <mprescripts/> it is even
 			if has_misplaced_mprescripts || !has_proper_number_of_children || has_none_none_script_pair(&children) {
 				// need to reset the children
 				let mut new_children = Vec::with_capacity(n+2); // adjusting position of mprescripts might add two children
